@@ -101,14 +101,15 @@ theorem decodeLength_append (l rest : List Nat) (r : Nat × Nat) (h : decodeLeng
 
 /-! ### `ReadFixedHeader` -/
 
-theorem toUint32_of_le (n : Nat) (h : n ≤ maxVBI) : toUint32 (n + 1) = n + 1 := by
+/-- the conversion `uint32(fh.Remaining+bu+1)` never wraps: `Remaining ≤ 268435455`, `bu ≤ 4` -/
+theorem toUint32_of_le (n bu : Nat) (h : n ≤ maxVBI) (hbu : bu ≤ 4) : toUint32 (n + bu + 1) = n + bu + 1 := by
   unfold toUint32 maxVBI at *; omega
 
 /-- the shape of a successful `ReadFixedHeader` -/
 theorem readFixedHeader_ok (m : Nat) (bs : List Nat) (fh : FixedHeader) (used : Nat)
     (h : readFixedHeader m bs = .ok fh used) :
     ∃ b rest fh0 n bu, bs = b :: rest ∧ fixedHeaderDecode b = .ok fh0 ∧ decodeLength rest = .ok (n, bu) ∧
-      fh = { fh0 with remaining := n } ∧ used = bu + 1 ∧ ¬ (m > 0 ∧ n + 1 > m) := by
+      fh = { fh0 with remaining := n } ∧ used = bu + 1 ∧ ¬ (m > 0 ∧ n + bu + 1 > m) := by
   cases bs with
   | nil => simp [readFixedHeader] at h
   | cons b rest =>
@@ -125,7 +126,7 @@ theorem readFixedHeader_ok (m : Nat) (bs : List Nat) (fh : FixedHeader) (used : 
         · rename_i hsz
           injection h with h1 h2
           refine ⟨b, rest, fh0, n, bu, rfl, hfh, hd, h1.symm, h2.symm, ?_⟩
-          rw [toUint32_of_le n (decodeLength_le_max rest n bu hd)] at hsz
+          rw [toUint32_of_le n bu (decodeLength_le_max rest n bu hd) (decodeLength_bytes rest n bu hd).2.1] at hsz
           simpa using hsz
 
 /-- **each packet consumes at least two bytes** (and its fixed header at most five) -/
